@@ -151,6 +151,8 @@ def _run(ctx):
     B.make_failing_inputs(ex)
     # texture spellings: soil files with one id per spelling; every case through the real Input/Hydro in-process
     B.make_variant_inputs(ex)
+    # lines sharing input files and ids, differing in one interpretation key ("same results alone or together")
+    _cache["ik"] = B.run_interp_groups(binary, ex, rng, concs=(1, 2, 8) if ctx.thorough else (1, 2), timeout=TIMEOUT)
     tcases = B.make_texture_inputs(ex, rng, 120 if ctx.thorough else 30)
     before = B.tree_snapshot(ex)
     bf = os.path.join(ex, "TX_batch.txt")
@@ -278,6 +280,11 @@ def correspond(ctx):
                              "cases": [{"name": tcs[i]["name"], "raw_codes": tcs[i]["raws"], "observed": list(tobs.get(i, ("none", ""))),
                                         "line": tcs[i]["line"]} for i in idx[:12]]})
     c.dist["texture_spellings"] = len(tcs)
+    iks, ikr = r["ik"]
+    c.dist["interpretation_key_lines"] = len(iks); c.dist["interpretation_key_group_runs"] = len(ikr)
+    for e, _ in ikr:
+        if e.died():
+            c.mismatches.append({"kind": "execution", "tag": e.tag, "what": "process did not finish normally", "rc": e.rc, "stderr": e.stderr[-500:]})
     # ---- (c) loop-bound sites
     lv = r["loopvars"]
     if lv is None:
@@ -316,7 +323,7 @@ def correspond(ctx):
                                  "observed_summary": e.summary, "observed_count": e.count, "started": B.ran_indices(e),
                                  "batch": e.contents, "solo_failed": {k: errs[k] for k in e.contents}})
     allx = list(r["solo"].values()) + r["mixed"]
-    c.cases = len(allx) + len(lcases) + len(tcs)
+    c.cases = len(allx) + len(lcases) + len(tcs) + len(iks) + len(ikr)
     c.nontrivial = len({(tuple(e.contents), e.c) for e in allx}) + len(set(lcases)) + len({(tc["project"], tuple(tc["raws"])) for tc in tcs})
     for e in r["mixed"]:
         c.bump("mixed concurrency=%d" % e.c)
@@ -353,6 +360,7 @@ def oracle(ctx, search):
                                      "batch line: %s ; hermes2go -module batch -concurrent 1 -batch <file>" % (
                                          tc["project"], "ex1 (txt soil file, columns 10-12)" if tc["project"] == "ttx" else "bulk (csv soil file, Texture column)",
                                          tc["sid"], tc["raws"], tc["line"])))
+    fails += B.interp_fails(Fail, *r["ik"])
     # every listed class alone
     failed = {}
     for k, e in solo.items():
